@@ -290,6 +290,12 @@ class CompilerPassGenerateCode(CompilerPass):
             data.result = IC10Operand(data.constant_value)
             return
 
+        if len(func_node.args.args) != len(node.args):
+            raise CompilerError(
+                f"Function {fname} expects {len(func_node.args.args)} arguments, but {len(node.args)} were given.",
+                node,
+            )
+
         do_inline = self.data.options.inline_functions and func_data.can_inline
 
         for i, arg in enumerate(node.args):
@@ -443,11 +449,6 @@ class CompilerPassGenerateCode(CompilerPass):
             sym_data.code_expr = ret_value
             calling_node = sym_data.nodes_reading[0].parent
 
-            if len(node.args.args) != len(calling_node.args):
-                raise CompilerError(
-                    f"Function {fname} expects {len(node.args.args)} arguments, but {len(calling_node.args)} were given.",
-                    calling_node,
-                )
             for i, arg in enumerate(node.args.args):
                 arg_sym = self.data.get_sym_data(arg)
                 calling_arg = calling_node.args[i]._ndata.result
